@@ -287,6 +287,8 @@ int main()
 {
   std::ios::sync_with_stdio(false);
   std::unique_ptr<world> w;
+  bool w_dead = false; // the current network reported an inconsistency (or a theory call failed): it is not destroyed
+  (void)w_dead;
   std::string line;
   while (std::getline(std::cin, line))
   {
@@ -303,7 +305,17 @@ int main()
       const std::string op = t.next();
       if (op == "case")
       {
+#ifdef PARALLELIZE
+        // every network owns a pool of worker threads: a network that ended consistently is destroyed (thousands of
+        // leaked pools exhaust the threads a process may have); one that reported an inconsistency is still leaked
+        if (w && !w_dead)
+          w.reset();
+        else
+          w.release();
+        w_dead = false;
+#else
         w.release(); // never destroyed (see sat.cpp)
+#endif
         w.reset(new world());
         std::cout << line << "\n";
         continue;
@@ -395,6 +407,8 @@ int main()
         else if (!hv::enc_exec(sat, op, t, res))
           throw std::runtime_error("bad-op");
       }
+      if (res == "F" || res.rfind("F ", 0) == 0 || res.rfind("exception", 0) == 0)
+        w_dead = true;
       res += learnt + " | " + access::vals_str(sat) + " | " + access::search_str(sat) + " | idl " + access::dl_str(w->idl) + " | rdl " + access::dl_str(w->rdl);
       if (access::lra_nvars(w->lra) > 0)
         res += " | lra " + access::lra_str(w->lra);
@@ -402,6 +416,7 @@ int main()
     catch (const std::exception &e)
     {
       res = std::string("exception:") + e.what();
+      w_dead = true;
     }
     std::cout << res << "\n";
   }
